@@ -19,7 +19,27 @@ def shapeJ (s : Shape) : Json :=
 def featuresJ (fs : List (String × Rat)) : Json :=
   arrJ (fs.map fun nv => arrJ [Json.str nv.1, ratJ nv.2])
 
-def handle (op : String) (a : Json) : Except String Json := do
+/-- the length table the harness computed as GEOS does (`sqrt(dx² + dy²)` in binary64), as a
+    function; a segment that is not in the table has length 0 (degenerate) -/
+def lenOf (tbl : List ((Pt × Pt) × Rat)) (p q : Pt) : Rat :=
+  match tbl.find? (fun e => e.1 == (p, q)) with
+  | some e => e.2
+  | none => 0
+
+def getLens (a : Json) : Except String (List ((Pt × Pt) × Rat)) := do
+  match fldOpt a "lens" with
+  | none => pure []
+  | some j => (← getArr j).mapM fun e => do
+      match ← getArr e with
+      | [p, q, l] => pure (((← getPair p), (← getPair q)), (← getRat l))
+      | _ => throw "lens entry arity"
+
+def getLib (a : Json) : Except String Pt :=
+  match fldOpt a "lib" with
+  | some j => getPair j
+  | none => pure (0, 0)
+
+def handle1 (op : String) (a : Json) : Except String Json := do
   match op with
   | "bounds" =>
     return valJ (boundsJ (← geomBounds (← getGeom (← fld a "g"))))
@@ -30,12 +50,29 @@ def handle (op : String) (a : Json) : Except String Json := do
   | "point" =>
     let b ← geomBounds (← getGeom (← fld a "g"))
     -- `lib`: shapely's centroid / point_on_surface when the harness passes it (else unused)
-    let lib : Pt ← match fldOpt a "lib" with
-      | some j => getPair j
-      | none => pure (0, 0)
+    let lib ← getLib a
     return exceptJ pairJ (pointAt (fun _ => lib) (← fldStr a "pos") b)
+  | "point_full" =>
+    -- get_geometry_point with the centroid modelled; `lib` = point_on_surface, `lens` = segment lengths
+    let g ← getGeom (← fld a "g")
+    return exceptJ pairJ (getPoint (lenOf (← getLens a)) (← getLib a) g (← fldStr a "pos"))
+  | "centroid" =>
+    let g ← getGeom (← fld a "g")
+    let lens ← getLens a
+    if lens.any (fun e => e.2 < 0) then throw "negative segment length"
+    return optRaiseJ pairJ ((toShape g).centroid (lenOf lens))
+  | "tame" =>
+    return valJ (boolJ (toShape (← getGeom (← fld a "g"))).Tame)
+  | "is_vertex" =>
+    let g ← getGeom (← fld a "g")
+    return valJ (boolJ (!(lowDim g) || isVertex g (← getPair (← fld a "p"))))
+  | "dispatch" =>
+    return exceptJ (fun _ => Json.null) (dispatch (← fldStr a "tag"))
   | "shape" =>
     return valJ (shapeJ (toShape (← getGeom (← fld a "g"))))
+  | "call_shape" =>
+    -- the same through the constructor calls (`toShape_eq_realize`)
+    return valJ (shapeJ (toCall (← getGeom (← fld a "g"))).realize)
   | "inside" =>
     let b ← geomBounds (← getGeom (← fld a "g"))
     let p ← getPair (← fld a "p")
@@ -56,5 +93,40 @@ def handle (op : String) (a : Json) : Except String Json := do
   | "holes_inside" =>
     return valJ (boolJ (HolesInside (← getGeom (← fld a "g"))))
   | _ => .error s!"C05: unknown op {op}"
+
+/-- `session`: several operations on one geometry value, in order (the implementation runs them on
+    one and the same object); the last entry is the geometry itself (it must not have been mutated) -/
+def handle (op : String) (a : Json) : Except String Json := do
+  match op with
+  | "session" =>
+    let gj ← fld a "g"
+    let outs ← (← fldArr a "calls").mapM fun c => do
+      let o ← fldStr c "op"
+      let args := match fldOpt c "pos" with
+        | some p => Json.mkObj [("g", gj), ("pos", p)]
+        | none => Json.mkObj [("g", gj)]
+      handle1 o args
+    return valJ (arrJ (outs ++ [geomJ (← getGeom gj)]))
+  | "history" =>
+    -- a sequence of steps on one object: `query` steps are answered on the coordinates the object
+    -- has at that step (every other step carries the new geometry value `g`)
+    let mut cur : Option Json := none
+    let mut outs : List Json := []
+    for st in (← fldArr a "steps") do
+      if (← fldStr st "do") == "query" then
+        match cur with
+        | none => throw "history: query before the first geometry"
+        | some gj =>
+          let rs ← (← fldArr st "calls").mapM fun c => do
+            let o ← fldStr c "op"
+            let args := match fldOpt c "pos" with
+              | some p => Json.mkObj [("g", gj), ("pos", p)]
+              | none => Json.mkObj [("g", gj)]
+            handle1 o args
+          outs := outs ++ [arrJ (rs ++ [geomJ (← getGeom gj)])]
+      else
+        cur := some (← fld st "g")
+    return valJ (arrJ outs)
+  | _ => handle1 op a
 
 end SE.Ops.C05
